@@ -20,7 +20,8 @@ Definition datum_eqb (a b : datum) : bool :=
 
 (* is any rejection decision of the documented procedure within 2e-6 (relative) of its threshold? *)
 Definition near (thr2 v : Q) : bool :=
-  Qle_bool (thr2 * (1 - (2 # 1000000))) v && Qle_bool v (thr2 * (1 + (2 # 1000000))).
+  (Qle_bool (thr2 * (1 - (2 # 1000000))) v && Qle_bool v (thr2 * (1 + (2 # 1000000))))
+  || (Qeq_bool thr2 0 && Qle_bool v (1 # 1000000000000000000)).   (* limit 0: the sign of a residual of rounding size *)
 Definition borderline1 (lower upper : Q) (d : datum) (f : Q) (m : bool) : bool :=
   let diff := dy d - f in
   m && (near (upper * upper) (diff * diff * dw d) || near (lower * lower) (diff * diff * dw d)).
